@@ -294,6 +294,72 @@ var SEQ = (function(){
     if (a !== b) return "MISMATCH direct="+a+" proxy="+b;
     return "OK "+a+"#"+calls.join(",");
   }
+  // enumeration through a proxy whose getOwnPropertyDescriptor trap LIES per key: h = honest, u = undefined, f = enumerable
+  // flipped, t = throws; ownKeys forwards.  Answers: the API's result (or the error class) and the trap sequence with keys.
+  function enumlie(api, lies, nonExt){
+    var T = mkKind("obj");
+    if (nonExt) Object.preventExtensions(T);
+    var act = {}, log = [];
+    lies.forEach(function(l){ var i = l.lastIndexOf(":"); act[l.slice(0, i)] = l.slice(i + 1); });
+    var P = new Proxy(T, {
+      ownKeys: function(t){ log.push("ownKeys"); return Reflect.ownKeys(t); },
+      getOwnPropertyDescriptor: function(t, k){
+        log.push("gopd:"+ck(k));
+        var a = act[ck(k)] || "h", d = Reflect.getOwnPropertyDescriptor(t, k);
+        if (a === "u") return undefined;
+        if (a === "t") throw new RangeError("lie");
+        if (a === "f" && d) d.enumerable = !d.enumerable;
+        return d;
+      },
+      get: function(t, k, r){ log.push("get:"+ck(k)); return Reflect.get(t, k, r); }
+    });
+    var r;
+    try {
+      var got = api === "k" ? Object.keys(P) : api === "n" ? Object.getOwnPropertyNames(P) : api === "s" ? Object.getOwnPropertySymbols(P)
+              : api === "e" ? Object.entries(P).map(function(e){ return e[0]; }) : api === "a" ? Reflect.ownKeys(Object.assign({}, P))
+              : (function(){ var a = []; for (var q in P) a.push(q); return a; })();
+      r = "k:"+got.map(ck).join(",");
+    } catch (e) { r = "T:"+(e && e.constructor && e.constructor.name || "?"); }
+    var facts = Reflect.ownKeys(T).map(function(k){ var d = Reflect.getOwnPropertyDescriptor(T, k);
+      return ck(k)+":"+(d.enumerable?1:0)+(d.configurable?1:0); });
+    return r+"#"+facts.join(",")+"#"+log.join(",");
+  }
+  // handlers that MUTATE the target inside the trap and then answer: the post-check must read the target as the trap left it
+  function mutate(trap, mut, resTok){
+    var T = {x: 1};
+    function doMut(t){
+      switch(mut){
+      case "nc": Object.defineProperty(t, "x", {value: 2, writable: false, configurable: false}); break;
+      case "ncw": Object.defineProperty(t, "x", {value: 2, writable: true, configurable: false}); break;
+      case "pe": Object.preventExtensions(t); break;
+      case "del": delete t.x; break;
+      case "delpe": delete t.x; Object.preventExtensions(t); break;
+      case "acc": Object.defineProperty(t, "x", {get: undefined, set: undefined, configurable: false}); break;
+      case "none": break;
+      default: throw new Error("bad mutation "+mut);
+      }
+    }
+    var res = trap === "gopd" ? (resTok === "u" ? undefined : desc(resTok)) : (resTok === "0" ? false : resTok === "1" ? true : val(resTok));
+    var h = {};
+    var name = {get:"get", has:"has", del:"deleteProperty", def:"defineProperty", set:"set", gopd:"getOwnPropertyDescriptor",
+                ie:"isExtensible", pe:"preventExtensions"}[trap];
+    h[name] = function(t){ doMut(t); return res; };
+    var P = new Proxy(T, h), r;
+    try {
+      switch(trap){
+      case "get": r = "v:"+cv(Reflect.get(P, "x")); break;
+      case "has": r = Reflect.has(P, "x") ? "b:1" : "b:0"; break;
+      case "del": r = Reflect.deleteProperty(P, "x") ? "b:1" : "b:0"; break;
+      case "def": r = Reflect.defineProperty(P, "x", {value: 5}) ? "b:1" : "b:0"; break;
+      case "set": r = Reflect.set(P, "x", 5) ? "b:1" : "b:0"; break;
+      case "gopd": r = "d:"+cd(Reflect.getOwnPropertyDescriptor(P, "x")); break;
+      case "ie": r = Reflect.isExtensible(P) ? "b:1" : "b:0"; break;
+      case "pe": r = Reflect.preventExtensions(P) ? "b:1" : "b:0"; break;
+      default: throw new Error("bad trap "+trap);
+      }
+    } catch (e) { r = (e instanceof TypeError) ? "TE" : "T:"+(e && e.constructor && e.constructor.name); }
+    return r+"#"+(Reflect.isExtensible(T)?1:0)+"#"+cd(Reflect.getOwnPropertyDescriptor(T, "x"));
+  }
   // model correspondence: primitive operations applied to a bare target (no proxy), answers in the canonical form, to be
   // compared with the Lean target models of Ordinary.lean / Exotic.lean.  Prototype null: no inherited lookups.
   function mkModelKind(kind){
@@ -312,7 +378,7 @@ var SEQ = (function(){
     for (var i = 0; i < ops.length; i++) out.push(attempt(T, ops[i], T, [T]));
     return out.join("|");
   }
-  return {run: run, revoked: revoked, jsHandler: jsHandler, TRAPS: TRAPS, keylie: keylie, mkKind: mkKind, fnkind: fnkind, model: model,
+  return {run: run, revoked: revoked, jsHandler: jsHandler, TRAPS: TRAPS, keylie: keylie, mkKind: mkKind, fnkind: fnkind, model: model, enumlie: enumlie, mutate: mutate,
           mkMargs: function(){ return SEQ_SLOPPY_ARGS(1,2); },
           jsOuter: function(t, lie){ return new Proxy(t, {ownKeys: function(){ return lie; }}); }};
 })();
@@ -326,6 +392,8 @@ type seqEnv struct {
 	keylie  goja.Callable
 	fnkind  goja.Callable
 	model   goja.Callable
+	enumlie goja.Callable
+	mutate  goja.Callable
 	mkKind  goja.Callable
 	mkMargs goja.Callable
 	jsOuter goja.Callable
@@ -349,7 +417,7 @@ func newSeqEnv() *seqEnv {
 		return f
 	}
 	e := &seqEnv{vm: vm, run: get(s, "run"), revoked: get(s, "revoked"), jsH: get(s, "jsHandler"), reflect: map[string]goja.Callable{},
-		keylie: get(s, "keylie"), fnkind: get(s, "fnkind"), model: get(s, "model"), mkKind: get(s, "mkKind"), mkMargs: get(s, "mkMargs"), jsOuter: get(s, "jsOuter")}
+		keylie: get(s, "keylie"), fnkind: get(s, "fnkind"), model: get(s, "model"), enumlie: get(s, "enumlie"), mutate: get(s, "mutate"), mkKind: get(s, "mkKind"), mkMargs: get(s, "mkMargs"), jsOuter: get(s, "jsOuter")}
 	r := vm.Get("Reflect").ToObject(vm)
 	for _, t := range []string{"getPrototypeOf", "setPrototypeOf", "isExtensible", "preventExtensions", "getOwnPropertyDescriptor",
 		"defineProperty", "has", "get", "set", "deleteProperty", "ownKeys", "apply", "construct"} {
@@ -521,6 +589,32 @@ func runSeq(f []string) string {
 	}
 	e := theSeq
 	vm := e.vm
+	if f[0] == "mutate" {
+		// Q mutate <trap> <mutation> <trap result>
+		if len(f) < 4 {
+			return "BADLINE"
+		}
+		v, err := e.mutate(goja.Undefined(), vm.ToValue(f[1]), vm.ToValue(f[2]), vm.ToValue(f[3]))
+		if err != nil {
+			return "ERR:" + common.OneLine(err.Error())
+		}
+		return v.String()
+	}
+	if f[0] == "enumlie" {
+		// Q enumlie <api k|n|s|e|a|f> <nonExt 0|1> <key:action,...|->
+		if len(f) < 4 {
+			return "BADLINE"
+		}
+		var lies []string
+		if f[3] != "-" {
+			lies = strings.Split(f[3], ",")
+		}
+		v, err := e.enumlie(goja.Undefined(), vm.ToValue(f[1]), vm.ToValue(lies), vm.ToValue(f[2] == "1"))
+		if err != nil {
+			return "ERR:" + common.OneLine(err.Error())
+		}
+		return v.String()
+	}
 	if f[0] == "model" {
 		// Q model <kind> <op;op;...>
 		if len(f) < 3 {
